@@ -74,7 +74,7 @@ def make_case(rng, dim, nr, nt, nz, base):
     c["temps"] = []
     for (a, b, cc) in c["prof"]:
         c["temps"].append([c["T0"] + a + b * ((r - ri) / (ro - ri)) + cc * ((r - ri) / (ro - ri)) ** 2 for (r, th, z) in nodes])
-    c["probe"] = ["qcoords", "volumes"] + (["disp", "quadrature", "mesh"] if dim == 1 else [])
+    c["probe"] = ["qcoords", "volumes"] + (["disp", "quadrature", "mesh"] if dim == 1 or (dim == 2 and nr * nt <= 48) else [])
     return c
 
 
@@ -119,8 +119,10 @@ def run(ctx):
     translators.import_all()
     ctx.gen("TubeMesh", translators.REGISTRY["TubeMesh"])
     ctx.prove("C03")
+    ctx.prove("C03_fe2d")
     if ctx.tier == "thorough":
         ctx.coqchk("C03")
+        ctx.coqchk("C03_fe2d")
     rng = ctx.rng
     findings = []
     # ---------------- probes: mesh and pressure load
@@ -268,6 +270,47 @@ def run(ctx):
     for kk in fe_fail:
         findings.append((cases[fe_owner[kk][0]], fe_owner[kk][1]))
     ctx.oblige("corr/axisymmetric-finite-element-certificate (%d terms)" % len(fe_terms), "corr", not fe_fail, "%d terms fail" % len(fe_fail))
+    # ---- certificate: the 2D results against the bilinear-quadrilateral finite-element model, in exact arithmetic
+    HEADER2D = ("From Coq Require Import QArith List.\nFrom SV Require Import model.TubeMech model.FE2D.\nImport ListNotations.\nOpen Scope Q_scope.")
+    q2 = lambda x: q_lit(qfrac(x))
+    t2, o2 = [], []
+    for i, (c, r) in enumerate(zip(cases, res)):
+        if c["dim"] != 2 or r.get("outcome") != "ok" or "quadrature" not in r or "disp" not in r:
+            continue
+        k = len(c["times"]) - 1
+        m = c["material"]
+        lamv = m["E"] * m["nu"] / ((1 + m["nu"]) * (1 - 2 * m["nu"]))
+        muv = m["E"] / (2 * (1 + m["nu"]))
+        P = arr(r["mesh"]["p"])
+        conn = r["mesh"]["t"]
+        ux, uy = np.ravel(arr(r["disp"]["disp_x"])[k]), np.ravel(arr(r["disp"]["disp_y"])[k])
+        Xq, Wq = arr(r["quadrature"]["points"]), np.ravel(arr(r["quadrature"]["weights"]))
+        thq = arr(r["quad"]["thermal_strain_xx"])[k]
+        S = {n: arr(r["quad"]["stress" + n])[k] for n in ("_xx", "_yy", "_zz", "_xy")}
+        smax = float(max(np.max(np.abs(x)) for x in S.values())) + 1e-6 * m["E"]
+        vl = lambda pts: "[" + "; ".join("(%s, %s)" % (q2(a), q2(b)) for a, b in pts) + "]"
+        nodes, disp = vl(P), vl(zip(ux, uy))
+        connl = "[" + "; ".join("[" + "; ".join("%d%%nat" % n for n in el) + "]" for el in conn) + "]"
+        gs = "[" + "; ".join("mkG2 %s %s %s" % (q2(Xq[0][g]), q2(Xq[1][g]), q2(Wq[g])) for g in range(len(Wq))) + "]"
+        ds = "[" + "; ".join("[" + "; ".join("mkD2 %s %s %s" % (q2(t), q2(lamv), q2(muv)) for t in row) + "]" for row in thq) + "]"
+        ss = "[" + "; ".join("[" + "; ".join("mkS2 %s %s %s %s" % (q2(S["_xx"][e][g]), q2(S["_yy"][e][g]), q2(S["_zz"][e][g]), q2(S["_xy"][e][g]))
+                                             for g in range(len(Wq))) + "]" for e in range(len(conn))) + "]"
+        ez = q2(c["dtop"][k] / c["h"])
+        pk = c["pressure"][k] if c["pressure"] else 0.0
+        nt_ = c["nt"]
+        ring = vl(P[:nt_])
+        ext = "(nodal_forces %s %s ++ repeat (0, 0) %d)" % (q2(pk), ring, len(P) - nt_)
+        hscale = smax * c["t"] / (c["nr"] - 1)                     # a stress times an element size: the size of one nodal force
+        t2.append("small_vecs (1#10000000) %s (residual2 %s %s %s %s %s)" % (q2(hscale), nodes, connl, gs, ss, ext))
+        o2.append((i, "the stored 2D stresses do not balance the pressure load in the bilinear finite-element model (nodal force residual)"))
+        t2.append("close_stresses2 (1#1000000000) %s (all_stresses2 %s %s %s %s %s %s) %s" % (q2(smax), ez, nodes, disp, connl, gs, ds, ss))
+        o2.append((i, "the stored 2D stresses are not Hooke's law on the strains of the stored displacements"))
+        t2.append("small (1#1000000000) %s (axial2 %s %s %s %s - %s)" % (q2(smax * area(c) * 10), nodes, connl, gs, ss, q2(uv(r["force"][k]))))
+        o2.append((i, "the reported 2D axial force is not the integral of s_zz over the section"))
+    f2 = coq_eval_cases("c03fe2", HEADER2D, t2, shard=3) if t2 else []
+    for kk in f2:
+        findings.append((cases[o2[kk][0]], o2[kk][1]))
+    ctx.oblige("corr/bilinear-finite-element-certificate (%d terms)" % len(t2), "corr", not f2, "%d terms fail" % len(f2))
     for fam in fams:
         idx = fam["1D"] + fam["2D"] + [fam["3D"], fam["2Dfor3D"], fam["1Dmid"], fam["indexed"], fam["noindex"], fam["idle"], fam["isoA"], fam["isoB"]]
         if any(res[i].get("outcome") != "ok" for i in idx):
